@@ -28,7 +28,7 @@ static char g_s0_obj[8], g_s1_obj[8];
 #define XS1 ((FILE *)g_s1_obj)
 int  g_s_open[2], g_s_writable[2], g_s_posvalid[2];
 long g_s_pos[2];
-int  g_io_failed, g_io_may_fail;
+int  g_io_failed, g_io_may_fail, g_close_failed;
 int  g_hdf_writable; /* C14: the HDF file that references the external file is open for writing */
 int  g_rd_n, g_wr_n, g_seek_n, g_open_n, g_close_n;
 int  g_rd_s, g_wr_s;           /* stream of the last read / write */
@@ -149,8 +149,13 @@ static int hx_fclose(FILE *f)
         g_s_open[s] = 0;
         g_close_n++;
     }
-    if (h4v_fail())
-        return EOF;
+    if (g_io_may_fail) { /* a failed close is logged separately: the streams closed by hextelt.c hold no unwritten data */
+        H4V_ND(int, close_fault);
+        if (close_fault) {
+            g_close_failed = 1;
+            return EOF;
+        }
+    }
     return 0;
 }
 
@@ -162,7 +167,7 @@ static int hx_fclose(FILE *f)
 
 static void hx_stdio_init(void)
 {
-    g_io_failed = 0;
+    g_io_failed = g_close_failed = 0;
     g_rd_n = g_wr_n = g_seek_n = g_open_n = g_close_n = 0;
     g_rd_s = g_wr_s = -1;
     g_rd_off = g_rd_len = g_wr_off = g_wr_len = -1;
